@@ -12,10 +12,16 @@ Tie to /repo:
   (E) the decision procedure run by the compiled driver (`c17.clean`) against an independent
       Python reachability on the same table, entry by entry; `c17.draws` replays the three
       branches of the real `get_rng` on the model's `Env.read`;
+  (F') the table "attribute copied by set_state_from to depth d / mutated in place at depth m"
+      with the obligation m <= d (`C17.no_shared_mutable_state`, soundness `Share.safe_sound`);
   dynamic validation of every verdict, API by API: the same (arguments, seed) is executed in
       fresh interpreters with different PYTHONHASHSEED, the global `random`/`numpy.random`
       generators reseeded differently and advanced between calls, and in a different call order;
-      all canonical results must be identical.  This is also the implementation-side oracle.
+      all canonical results must be identical.  In one interpreter every call is in addition
+      repeated on the SAME object after a warm-up history that exercises the object's caches
+      (in-place reconfigure / anneal / forest, slice+unslice, queries, a seeded call with another
+      seed), on copies, and through the inplace variant on two copies and on the original
+      (c17_worker.same_object_checks).  This is also the implementation-side oracle.
 """
 
 import json
@@ -44,7 +50,7 @@ LEVEL_NOTE = ("Trusted: Lean kernel; the AST fact extractor harness/c17_facts.py
 TECHNIQUE = ("Lean 4 proof (noninterference by induction on fuel; closed-set certificate checking) + source-derived "
              "fact table with a kernel `decide` obligation + subprocess differential testing under PYTHONHASHSEED / "
              "global-RNG perturbation")
-LEAN_MODULES = ["CotengraVerif.Props.C17"]
+LEAN_MODULES = ["CotengraVerif.Lemmas.FlowNI", "CotengraVerif.Props.C17"]
 THEOREMS = [
     "Cotengra.Flow.noninterference",
     "Cotengra.Flow.cleanFrom_sound",
@@ -55,6 +61,10 @@ THEOREMS = [
     "Cotengra.C17.global_read_interferes",
     "Cotengra.C17.hash_read_interferes",
     "Cotengra.C17.prefix_snapshot_counterexample",
+    "Cotengra.Share.safe_sound",
+    "Cotengra.C17.no_shared_mutable_state",
+    "Cotengra.C17.copies_are_private",
+    "Cotengra.C17.shared_state_counterexample",
 ]
 TRUSTED = [
     "Lean 4.33 kernel; axioms ⊆ {propext, Classical.choice, Quot.sound}",
@@ -72,7 +82,9 @@ ASSUMPTIONS = [
     "parallel=False for the forest / tempering / random-greedy (process pools are out of scope)",
     "optimizer objects passed as arguments (`optimize=`) are part of the arguments",
 ]
-RULE = ("per round a random network (6-30 tensors; single-letter, multi-character and unicode index labels so that "
+RULE = ("[every case also: the identical call repeated on the SAME object after a warm-up history, on copies, "
+        "after a call with another seed and through the inplace variant, inside one interpreter] "
+        "per round a random network (6-30 tensors; single-letter, multi-character and unicode index labels so that "
         "string hashing matters) x random tree x every seeded API with randomised options; each case = (API, "
         "arguments, integer seed) executed in 3 (quick) / 6 (thorough) fresh interpreters with distinct "
         "PYTHONHASHSEED, distinct global-RNG seeds and perturbation, and a shuffled call order; non-trivial = no "
@@ -249,6 +261,41 @@ def gen_cases(rng, rounds, big=False):
         C("greedy_span", temperature=rng.choice([0.2, 1.0]))
         base = keep
         # --- operations on trees ------------------------------------------------------------
+        # from here on the cases carry a warm-up history applied to the tree object before the
+        # call (see c17_worker.apply_history): the result must not depend on it beyond the
+        # visible state of the tree
+        plainC = C
+
+        def C(api, presliced=None, **o):  # noqa: F811
+            plainC(api, presliced=presliced, **o)
+            c = cases[-1]
+            hist = []
+            if rng.random() < 0.75:
+                mini = o.get("minimize")
+                for _ in range(rng.randint(1, 3)):
+                    k = rng.choice(["reconf_", "reconf_", "reconf_", "stats", "contractor", "seeded_other",
+                                    "anneal_", "forest_", "slice_unslice"])
+                    if k == "reconf_":
+                        a = {"subtree_size": rng.randint(2, 4), "maxiter": rng.randint(1, 4)}
+                        m = rng.choice([mini, mini, None, "flops", "size"])
+                        if m is not None:
+                            a["minimize"] = m
+                        hist.append([k, a])
+                    elif k == "forest_":
+                        hist.append([k, {"num_trees": 2, "num_restarts": 1, "subtree_maxiter": 2,
+                                         "subtree_size": 3, "seed": rng.randrange(1000)}])
+                    elif k == "anneal_":
+                        hist.append([k, {"tsteps": 2, "numiter": 2, "seed": rng.randrange(1000)}])
+                    elif k == "seeded_other":
+                        hist.append([k, {"seed": rng.randrange(10 ** 6)}])
+                    elif k == "slice_unslice":
+                        if not presliced:
+                            hist.append([k, {"seed": rng.randrange(1000)}])
+                    else:
+                        hist.append([k])
+            if hist:
+                c["history"] = hist
+
         temp = rng.choice([0.01, 0.3, 1.0])
         tgt = rng.choice([{"target_slices": rng.choice([2, 4, 8])}, {"target_size": rng.choice([4, 8, 16, 64])},
                           {"target_overhead": rng.choice([1.5, 3.0])}])
@@ -284,25 +331,27 @@ def gen_cases(rng, rounds, big=False):
 
 
 # ------------------------------------------------------------------------------------ running
-def _spawn(cases, hashseed, perturb, order=None):
+def _spawn(cases, hashseed, perturb, order=None, same_object=False):
     env = dict(os.environ, PYTHONHASHSEED=str(hashseed))
     env.pop("PYTHONPATH", None)
-    job = {"repo": common.REPO, "perturb": perturb, "cases": cases, "order": order}
+    job = {"repo": common.REPO, "perturb": perturb, "cases": cases, "order": order, "same_object": same_object}
     p = subprocess.Popen([common.PY, WORKER], stdin=subprocess.PIPE, stdout=subprocess.PIPE,
                          stderr=subprocess.PIPE, text=True, env=env)
     p._job = json.dumps(job)
     return p
 
 
-def run_workers(cases, runs, shuffle_rng=None, timeout=900):
-    """runs: list of (hashseed, perturb). Returns list of result dicts (pos -> canonical)."""
+def run_workers(cases, runs, shuffle_rng=None, timeout=900, same_object=()):
+    """runs: list of (hashseed, perturb). Returns list of result dicts (pos -> canonical).
+    `same_object`: positions in `runs` whose interpreter also repeats every call on the same
+    object (c17_worker.same_object_checks)."""
     procs = []
     for k, (hs, pert) in enumerate(runs):
         order = None
         if shuffle_rng is not None and k > 0:
             order = list(range(len(cases)))
             shuffle_rng.shuffle(order)
-        procs.append(_spawn(cases, hs, pert, order))
+        procs.append(_spawn(cases, hs, pert, order, same_object=k in same_object))
     outs = []
     # feed all, then collect (the workers run in parallel)
     import threading
@@ -374,6 +423,25 @@ def compare(ctx, cases, outs, runs, sens=None):
         ctx.traces += 1
         if len(keys) > 1:
             failing.setdefault(api, []).append(pos)
+    # the same call repeated on the same object / copies inside one interpreter
+    for o in outs:
+        for pos_s, labels in (o.get("selfcheck") or {}).items():
+            case = cases[int(pos_s)]
+            api = case["api"]
+            ctx.count("same_object_differs:" + api)
+            ctx.count("same_object_history_violations")
+            sig = dict(_sig(case), **{"class": "same-object-history"})
+            rep = {"cases": [case], "runs": [list(runs[0])], "same_object": True}
+            alone = run_workers([case], [runs[0]], same_object=(0,))[0].get("selfcheck")
+            if not alone:
+                p = int(pos_s)
+                rep = {"cases": cases[:p + 1], "runs": [list(runs[0])], "pos": p, "same_object": True}
+            if ctx.violation(sig, rep,
+                             f"{api}{ {k: v for k, v in sig.items() if k not in ('site', 'class')} } with "
+                             f"seed={case['seed']}: the identical call on the same (visibly unchanged) object "
+                             f"returns a different result depending on what was called before "
+                             f"({', '.join(labels)}; history {case.get('history')})"):
+                failing.setdefault(api, [])
     for api, poss in failing.items():
         # one report per (api, option class); replay = the single case if it reproduces alone
         seen = set()
@@ -399,7 +467,9 @@ def dynamic_round(ctx, rng, rounds, nruns, big=False):
     cases = gen_cases(rng, rounds, big=big)
     runs = [(HASHSEEDS[k % len(HASHSEEDS)], rng.randrange(1 << 30)) for k in range(nruns)]
     shuf = _random.Random(rng.randrange(1 << 30))
-    outs = run_workers(cases, runs, shuffle_rng=shuf)
+    outs = run_workers(cases, runs, shuffle_rng=shuf, same_object=(0,))
+    ctx.count("same_object_cases", len(cases))
+    ctx.count("cases_with_history", sum(1 for c in cases if c.get("history")))
     # seed sensitivity (non-vacuity): the same cases with seed+1 in one more interpreter
     cases2 = [dict(c, seed=c["seed"] + 1) for c in cases]
     o2 = run_workers(cases2, [runs[0]])[0]
@@ -443,6 +513,20 @@ def static_side(ctx, drv):
         resp2 = drv.call("c17.clean", table=[[r["calls"], r["rdGlobal"], r["rdHash"]] for r in t], entries=in_ids)
         if resp2.get("all") != all(verd[e["q"]]["clean"] for e in fx["entries"]):
             ctx.corr_broken("Lean cleanAll and Python reachability disagree")
+    # hidden shared state: (copy depth, in-place mutation depth) of every attribute of set_state_from
+    sh = fx["sharing"]
+    ctx.notes["sharing_table"] = [f"{r['cls']}.{r['attr']}: copy {r['copy']}, mutated {r['mut']}"
+                                  + (f" at {r['where']}" if r["where"] else "") for r in sh]
+    ctx.obligation("every attribute copy in set_state_from has a recognised form",
+                   all(r["copy_recognised"] for r in sh) and len(sh) >= 10,
+                   "; ".join(f"{r['cls']}.{r['attr']}" for r in sh if not r["copy_recognised"]))
+    resp3 = drv.call("c17.sharesafe", rows=[[r["copy"], r["mut"]] for r in sh])
+    want_bad = [i for i, r in enumerate(sh) if r["mut"] > r["copy"]]
+    ctx.traces += 1
+    if resp3.get("safe") != (not want_bad) or resp3.get("bad") != want_bad:
+        ctx.corr_broken("Lean Share.safe and the Python comparison disagree", {"lean": resp3})
+    ctx.notes["static_shared_and_mutated"] = [ctx.notes["sharing_table"][i] for i in want_bad]
+    verd["__sharing_safe__"] = {"clean": not want_bad}
     return verd
 
 
@@ -506,7 +590,7 @@ def run(ctx, drv):
     verd = static_side(ctx, drv)
     get_rng_tie(ctx, drv)
     nruns = 3 if ctx.tier == "quick" else 6
-    rounds = 40 if ctx.tier == "quick" else 200
+    rounds = 24 if ctx.tier == "quick" else 160
     failing = set()
     done = 0
     while done < rounds and ctx.time_left() > 60:
@@ -520,11 +604,15 @@ def run(ctx, drv):
         if ents and all(verd.get(q, {"clean": True})["clean"] for q in ents):
             ctx.corr_broken("the fact extractor found nothing for an API that is observed to be non-deterministic",
                             {"api": api, "entries": ents})
+    if ctx.dist.get("same_object_history_violations") and verd["__sharing_safe__"]["clean"]:
+        ctx.corr_broken("a result depends on the history of the same object although the sharing table "
+                        "(copy depth vs in-place mutation depth) is safe")
     ctx.notes["dynamic_nondeterministic_apis"] = sorted(failing)
     ctx.notes["static_vs_dynamic"] = {
         api: {"static_clean": all(verd.get(q, {"clean": True})["clean"] for q in ents),
               "dynamic_deterministic": api not in failing}
         for api, ents in sorted(API_ENTRIES.items())}
+    verd.pop("__sharing_safe__", None)
 
 
 def search(ctx):
@@ -556,6 +644,9 @@ def replay(ctx, obj):
         return got == (want_g if g["kind"] == "none" else want_s)
     cases = obj["cases"]
     runs = [tuple(r) for r in obj["runs"]]
-    outs = run_workers(cases, runs)
+    so = tuple(range(len(runs))) if obj.get("same_object") else ()
+    outs = run_workers(cases, runs, same_object=so)
     pos = obj.get("pos", len(cases) - 1)
+    if any((o.get("selfcheck") or {}).get(str(pos)) for o in outs):
+        return False
     return len({_key(o["results"][str(pos)]) for o in outs}) == 1
